@@ -784,7 +784,8 @@ func (e *Exec) doQuery(c *Cmd, sl *slots) string {
 			return errKind(err)
 		}
 		return bmList(bm)
-	case "dv":
+	case "dv", "dvspec":
+		// dvspec: the same visit; the driver compares it with the source document named by src=
 		return e.qDv(c, sg, sl)
 	case "thesterms":
 		return e.qThesTerms(c, sg)
